@@ -263,7 +263,41 @@ def check_store(cq):
     return obs
 
 
+def check_store_func(fq):
+    """name/store for a module-level factory: names given as strings reach the created objects whole"""
+    import re
+    from contracts.invariants import SLOTS
+    r = repo()
+    fi = r.funcs[fq]
+    run = run_function(fi, None, overrides={"*names": "name"})
+    name = fi.short
+    if run.error:
+        return [Obligation(PROP, f"{name}|name/store", "name/store", fi.short, UNSUPPORTED, reason=run.error)]
+    bad, n = [], 0
+    for o in run.outcomes:
+        if o.status == "raise":
+            continue
+        for h in o.state.heap.values():
+            if not h.fresh or h.cls is None:
+                continue
+            for k in h.cls.mro:
+                for attr, spec in SLOTS.get(k.short, {}).items():
+                    if spec.split("|")[0] != "name" or attr not in h.attrs:
+                        continue
+                    n += 1
+                    v = h.attrs[attr]
+                    txt = repr(v)
+                    if re.search(r"\$names\[[^\]]*\](\.\d+|\[-?\d+\]|\[-?\d*:-?\d*\]|\.\w+\()", txt):
+                        bad.append(f"{h.cls.name}.{attr} holds {txt[:80]}: a piece of the name given, not the name")
+    return [Obligation(PROP, f"{name}|name/store", "name/store", fi.short, REFUTED if bad else PROVED,
+                       detail=f"{n} name slot(s) of the created objects hold the given names whole",
+                       reason="; ".join(sorted(set(bad))[:2]),
+                       witness={"family": "call", "oracle": "name_store", "args": ["make_tables"]})]
+
+
 def _dispatch(item):
+    if item[0] == "$store-func":
+        return check_store_func(item[1])
     if item[0] == "$static":
         return check_static(item)
     if item[0] == "$store":
@@ -283,7 +317,18 @@ def generate(tier="quick"):
         if any(spec.split("|")[0] == "name" for k in ci.mro for spec in SLOTS.get(k.short, {}).values()) or \
                 ci.short in ("queries.Table", "queries.Schema", "queries.Database"):
             stores.append(("$store", ci.qual, []))
+    stores.append(("$store-func", "pypika_tortoise.queries.make_tables", []))
     obs = parallel(_dispatch, [("$static", None, [])] + stores + t)
+    # quote/qualifier: the qualifier of a column / star reference is the quoted alias of its source, else its name -
+    # the identifier under which FROM introduces that source (the ns/field and ns/star name obligations of C11)
+    from . import c11
+    for it in (("ns/field", "pypika_tortoise.terms.Field.get_sql", "pypika_tortoise.terms.Field"),
+               ("ns/star", "pypika_tortoise.terms.Star.get_sql", "pypika_tortoise.terms.Star")):
+        for ob in c11.leaf(it):
+            if ob.key.endswith("/name"):
+                ob.prop, ob.kind = PROP, "quote/qualifier"
+                ob.key = ob.key.replace("|ns/", "|quote/qualifier/")
+                obs.append(ob)
     return obs, {"functions": sorted({x[0] for x in t}) + ["pypika_tortoise.utils.format_quotes"],
                  "closed_world": sorted({c for x in t for c in x[2]}),
                  "assumptions": ["which data are names is declared in contracts/invariants.py (label `name`): table, "
